@@ -217,6 +217,11 @@ def obligations(tier):
     from .c09 import BoundedOb
     from . import e2e_native
     obs.append(BoundedOb(f"{PID}/bounded/native survey: every returned factor, weight and core is finite and non-negative", "tensorly.decomposition:non_negative_parafac+non_negative_parafac_hals+non_negative_tucker+non_negative_tucker_hals", lambda: e2e_native.c10(tier), dict(orders="2-3 (4 thorough)", data="signed, non-negative, sparse, integer, all-negative", budgets="0, 1, 6"), "seed 0; SVD and random initialisation, with and without normalisation, FISTA and active-set core; calls raising LinAlgError('Singular matrix') are skipped", pid=PID))
+    from .c09 import BoundedOb as _BOb
+    from . import e2e_native as _e2e
+    obs.append(_BOb(f"{PID}/bounded/native survey of secondary entry points: PARAFAC2 variants, TR-ALS, constrained / randomised CP, masks, sparse component, normalisation exits, CMTF, TT-matrix",
+                    "tensorly.decomposition:parafac2+tensor_ring_als+constrained_parafac+randomised_parafac+parafac+non_negative_tucker+non_negative_tucker_hals+coupled_matrix_tensor_3d_factorization+tensor_train_matrix",
+                    lambda: _e2e.extras(tier, PID), dict(entry_points=9, clauses="those of this property"), "seed 0; tolerances 1e-6 (errors), 1e-8 (structure); one shared run per process, failures filtered by property", pid=PID))
     return obs
 
 
